@@ -250,8 +250,8 @@ def main():
               assumptions=COMMON_TRUSTED + cfg.get('assumptions', []) + [COMMON_DROPPED], wall_s=round(wall, 2),
               violations=len(violations) + (1 if exit_code == 1 and not violations else 0))
     json.dump(ev, open(os.path.join(EVD, pid + '.json'), 'w'), indent=1, default=str)
-    print('%s tier=%s obligations=%d discharged=%d native_evaluations=%d failures=%d wall=%.1fs exit=%d' % (
-        pid, tier, ded['obligations'], ded['discharged'], (nat or {}).get('evaluations', 0), len(violations), wall, exit_code))
+    print('%s tier=%s obligations=%d discharged=%d out_of_subset=%d native_evaluations=%d failures=%d wall=%.1fs exit=%d' % (
+        pid, tier, ded['obligations'], ded['discharged'], len(ded['out_of_subset']), (nat or {}).get('evaluations', 0), len(violations), wall, exit_code))
     sys.exit(exit_code)
 
 
